@@ -167,6 +167,8 @@ Section Defs.
   Definition is_conn_op (s : state) (i : N) : Prop :=
     exists o, getop s i = Some o /\ is_connect (op_packet o) = true /\ op_user o = false.
 
+  Definition olist (o : option N) : list N := match o with Some i => [i] | None => [] end.
+
   Definition ss_ok (s : state) : Prop := cf_drain_one cfg = true -> s_ss_count s = sumss (s_ops s).
 
   Definition WFP (s : state) : Prop :=
@@ -177,7 +179,7 @@ Section Defs.
         s_ppub s = [] /\ s_pnon s = [] /\ s_tmo s = [] /\ s_connack_to s <> None /\
         (forall i, In i (s_hq s) \/ In i (s_pwco s) -> is_conn_op s i) /\
         (forall i o, s_cur s = Some i -> getop s i = Some o -> is_connect (op_packet o) = true /\ op_user o = false) /\
-        cur_ok s
+        cur_ok s /\ NoDup (s_hq s ++ s_pwco s ++ olist (s_cur s))
     | Connected => s_settings s <> None /\ cur_ok s /\ ss_ok s
     | PendingDisconnect => s_settings s <> None
     | Halted => True
